@@ -26,7 +26,7 @@ Proof.
   destruct (Nat.leb_spec b (length s)); [lia|reflexivity].
 Qed.
 
-(** the index found by [strings.Index(header, key+"=")] leaves room for the key and the '=' *)
+(** the index found by strings.Index(header, key+[=]) leaves room for the key and the equals sign *)
 Lemma index_key_room header key i :
   index_of header (key ++ [61%N]) = Some i -> i + length key + 1 <= length header.
 Proof.
@@ -83,7 +83,7 @@ Proof.
   cbn. discriminate.
 Qed.
 
-(** functional reading on a well-formed challenge: [key="v",...] with no quote inside [v] yields [v] *)
+(** functional reading on a well-formed challenge: key=QvQ,... (Q the double quote) with no quote inside v yields v *)
 Lemma scan_end_value v post : forall i,
   (forall c, In c v -> c <> 34%N) ->
   scan_end (v ++ 34%N :: 44%N :: post) i = i + length v.
@@ -130,7 +130,7 @@ Proof.
       replace (pre ++ t ++ 34%N :: v ++ 34%N :: 44%N :: post)
         with ((pre ++ removelast t) ++ [last t 0%N] ++ 34%N :: v ++ 34%N :: 44%N :: post).
       2:{ rewrite <- !app_assoc. f_equal. rewrite app_assoc. f_equal. symmetry. apply app_removelast_last. exact Htn. }
-      rewrite firstn_app. replace (length a + length t - length (pre ++ removelast t)) with 0 by lia.
+      symmetry. rewrite firstn_app. replace (length a + length t - length (pre ++ removelast t)) with 0 by lia.
       cbn [firstn]. rewrite app_nil_r. reflexivity. }
   subst a.
   assert (Hlen : length hd = length pre + length t + 1 + length v + 2 + length post).
